@@ -260,6 +260,19 @@ func (s *Server) serveStream(ctx context.Context, r io.Reader, w io.Writer, req 
 		// pointer batch is a zero-row batch with no usable input data,
 		// so passing it to the user handler would silently corrupt the
 		// computation. End the stream with an error response instead.
+		// A pointer batch on a call that never engaged a segment cannot be
+		// resolved. Handing the zero-row pointer to the state as if it were
+		// data would silently compute on nothing, so end the stream with an
+		// error instead (the drain after the loop keeps the session in frame).
+		if req.Shm == nil && IsShmPointerBatch(inputBatch) {
+			streamErr = &RpcError{
+				Type:    "IOError",
+				Message: "received shm pointer batch but no segment is attached (transport negotiation mismatch)",
+			}
+			s.logIPCWriteErr("stream-shm-no-segment", req.Method,
+				writeErrorBatch(outputWriter, outputSchema, streamErr, s.serverID, req.RequestID, s.debugErrors))
+			break
+		}
 		if req.Shm != nil && IsShmPointerBatch(inputBatch) {
 			resolved, releaseOff, release, rerr := ResolveShmBatch(inputBatch, req.Shm)
 			if rerr != nil {
